@@ -54,17 +54,23 @@ CLASSIFIER_SPEC = [
     ("now()", "dateTime", True), ("today()", "date", True), ("1 + 1", "integer", True), ("2 * 3", "integer", True), ("${q1}", "text", True),
     ("concat('a', ${q1})", "text", True), ("../q1", "text", False), ("uuid()", "text", True), ("if(${a} > 1, 'x', 'y')", "text", True),
     ("7 div 2", "decimal", True), ("5 mod 2", "integer", True), ("instance('x')/root/item[1]/name", "text", True), ("a | b", "text", True),
+    # a reference or a function call makes a default dynamic whatever else it contains, also for the date-like types
+    # whose literals contain hyphens
+    ("${d1} - ${n}", "date", True), ("decimal-date-time(${d1}) - 7", "date", True), ("today() - 1", "date", True), ("${lat} - 1", "geopoint", True),
+    ("2022-03-14", "date", False), ("1 - 1", "integer", True),
+    # comparison / boolean words and markup characters in a literal text are just text
+    ("a < b", "text", False), ("<none>", "text", False), ("k=v", "text", False), ("R&D <b>x</b> ]]>", "text", False), ("this and that", "text", False), ("yes or no", "text", False),
 ]
 
 
-def _classifier_rule(ctx):
+def _classifier_rule(ctx, prop="C10", rid="C10.R6"):
     from ..interp import Obj as _Obj
-    r6 = Rule("C10", "C10.R6", "static/dynamic classification of default texts", floor=25,
+    r6 = Rule(prop, rid, "static/dynamic classification of default texts", floor=25,
               necessary="a literal classified as an expression leaves the node empty and adds a setvalue; an expression classified as a literal is written verbatim")
-    rules_map = ctx.consts.get("pyxform.parsing.expression", "LEXER_RULES", "C10.R6")
+    rules_map = ctx.consts.get("pyxform.parsing.expression", "LEXER_RULES", rid)
     if not isinstance(rules_map, dict) or not all(isinstance(v, str) for v in rules_map.values()):
-        raise AnalysisError("C10.R6", "LEXER_RULES did not fold to a table of patterns")
-    dd = ctx.func("pyxform.utils:default_is_dynamic", "C10.R6")
+        raise AnalysisError(rid, "LEXER_RULES did not fold to a table of patterns")
+    dd = ctx.func("pyxform.utils:default_is_dynamic", rid)
 
     def h_parse(i, a, k, n):
         text = a[0] if a else k.get("text")
@@ -72,7 +78,7 @@ def _classifier_rule(ctx):
         return ([_Obj(None, {"name": nm, "value": v}, name=f"tok:{nm}") for nm, v in toks], rest)
 
     for text, qtype, want in CLASSIFIER_SPEC:
-        it = ctx.interp("C10.R6", hooks={"fnname:parse_expression": h_parse})
+        it = ctx.interp(rid, hooks={"fnname:parse_expression": h_parse})
         it.reset([])
         try:
             got = it.call_function(dd, [text, qtype], {}, None, dd.node)
